@@ -4,6 +4,9 @@ import json, os, subprocess, sys
 ROOT = os.path.dirname(os.path.dirname(os.path.abspath(__file__)))
 
 CLAIMED = {
+ "C20": ("exploration", "property-based testing (proptest) over generated shapes + exhaustive small shapes, differential against u128 / f64 reference matrix products and cross-correlations",
+         "Generated-input search: nine pipelines (coefficient-packing matmul forward / reverse / CKKS with three objectives, output packing, bias re-encoding and selected-term transport; BOLT cp, cc_cr, cc_dc; conv2d forward / reverse / CKKS) on shapes from 1 up to several times the slot count, so that splits along every dimension (image height included) and partial last blocks occur, with boundary-biased values; every (m,r,n) <= 3 (thorough <= 6, three degrees) exhaustively; decode(encode(outputs)) round trips; the RNS-plaintext wrapper against big-integer arithmetic modulo the product of its plain moduli. Two genuine defects were found and fixed (conv2d weight buffer; data-dependent panic in decrypt_outputs_bfv when trailing outputs are zero).",
+         "Trusted: u128 / f64 reference implementations; fixed generous parameter family with a per-case noise guard.", "DESIGN.md §6 C20"),
  "C19": ("exploration", "exhaustive enumeration (all indices, trace depths, pack counts at N<=32/64) + property-based testing against a coefficient-placement oracle on decrypted vectors",
          "Generated-input search: for N in {4,..,32} (thorough 64) in the three schemes every coefficient index through extract+assemble in either input representation, every trace parameter and every pack count 1..N, plus random parameter sets up to N=64 (thorough 1024) with random term selections and seed-compressed automorphism keys. Decrypted coefficient vectors (exact modulo t in BFV/BGV; exact integers via own CRT within worst-case noise in CKKS) must show m_i in the constant coefficient, (N/2^l) m_j exactly on multiples of N/2^l and zero elsewhere, and the k packed values at stride N/2^ceil(log2 k).",
          "Trusted: noise model DESIGN.md §4 with generous factors for merge/trace rounds; own CRT.", "DESIGN.md §6 C19"),
